@@ -22,6 +22,8 @@ CHECKS = {
     "C05": ("c05", False),
     "C19": ("c19", False),
     "C14": ("c14", False),
+    "C03": ("cpp", True),
+    "C13": ("cpp", True),
 }
 
 
